@@ -276,7 +276,7 @@ def run(db: DB, rep: Report) -> None:
                           "%s memoises on %s" % (f.short, owner),
                           "%s memoises on %s, which is not the per-Einsum partition graph" % (f.short, owner))
     if n_cache < 1:
-        raise AnalysisError("no memoisation site found in Partitioning (anchor vanished)")
+        rep.notes.append("no per-graph memoisation site found in Partitioning any more")
     # Partitioning objects are created per Einsum, only in Program.add_einsum
     sites = []
     for f in db.functions.values():
